@@ -473,6 +473,29 @@ func handshakeCache(scfg *tls.Config, client *leaf, serverCA *ca, cache tls.Clie
 
 const cn, host = "allowed-client", "client.allowed.test"
 
+// hostCA stands for a CA of the host's default trust store (a public CA): it is NOT among the CAs a
+// configuration names, so certificates it issued are foreign however well they match the allowed CN
+// or hostname. setupHostTrust makes it the whole default trust store of this process and of every
+// binary started from it (SSL_CERT_FILE / SSL_CERT_DIR are what crypto/x509 reads on Linux).
+var hostCA *ca
+
+func setupHostTrust() (cleanup func()) {
+	dir, err := os.MkdirTemp("", "verif-c17-hosttrust-")
+	if err != nil {
+		return func() {}
+	}
+	c := newCA("host-trust-store-ca")
+	file, empty := filepath.Join(dir, "host-ca.pem"), filepath.Join(dir, "empty")
+	if os.WriteFile(file, c.pem, 0o644) != nil || os.Mkdir(empty, 0o755) != nil {
+		os.RemoveAll(dir)
+		return func() {}
+	}
+	os.Setenv("SSL_CERT_FILE", file)
+	os.Setenv("SSL_CERT_DIR", empty)
+	hostCA = c
+	return func() { os.RemoveAll(dir) }
+}
+
 // tlsLeaves: the client certificates every TLS configuration is probed with (nil = none presented).
 func tlsLeaves(right, wrong *ca) []*leaf {
 	leaves := []*leaf{nil}
@@ -490,6 +513,9 @@ func tlsLeaves(right, wrong *ca) []*leaf {
 	add(newLeaf("rightCA/wildcard-SAN", right, "right", "w", []string{"*.allowed.test"}, nil, false))
 	add(newLeaf("rightCA/other-hostname-SAN", right, "right", "w", []string{"client.denied.test"}, nil, false))
 	add(newLeaf("rightCA/IP-SAN", right, "right", "w", nil, []net.IP{net.ParseIP("10.1.2.3")}, false))
+	if hostCA != nil {
+		add(newLeaf("host-trust-store-CA/rightCN+hostname+IP", hostCA, "host", cn, []string{host}, []net.IP{net.ParseIP("10.1.2.3")}, false))
+	}
 	return leaves
 }
 
@@ -969,7 +995,7 @@ func runTLS(r *evid.Run) {
 
 func Run(r *evid.Run) {
 	r.Check = "c17"
-	r.Rule("tokens, concurrent: one instance of the commands' authorization function called by 2-3 clients at once (right token, another token, no token; 6 programs), every interleaving at statement granularity up to 3 preemptions: each call decided on its own metadata; tokens: for each token configuration {maintenance only, tables only, both, none} the real `regatta leader` and `regatta follower` binaries (built from the working tree) are started on unix sockets; every method of Tables (Create, Delete, List) and Maintenance (Backup stream, Restore stream, Reset) plus KV.Range and Cluster.Status as controls is called on both nodes with 14 authorization variants (absent, empty, right token under 3 scheme spellings, prefix, suffix, case-changed, trailing/leading space, Basic scheme, scheme only, token only, the other service's token): a configured service answers Unauthenticated to everything but the exact token and nothing changes; the right token is never Unauthenticated; unconfigured and other services are unaffected. TLS: real security.TLSInfo.ServerConfig() handshakes over in-memory pipes for 14 client certificates (no certificate, right/wrong CA, self-signed, CN variants, SAN variants, IP SAN) x {TrustedCAFile} x {ClientCertAuth} x {no restriction, AllowedCN, AllowedHostname, allowed IP, both (must be refused at configuration time)}; reference for hostname validity is x509's VerifyHostname; every ordered pair of those configurations (same certificate and key) x every client: a session obtained from the first must not carry a client past the second one's rules; the same 14 client certificates against the real `regatta leader` process on BOTH its TLS endpoints (client API by flags, replication by flags + config file) for {trusted CA + allowed CN, trusted CA + allowed hostname} x {client-cert-auth default, set}, one real gRPC call each; plus one leader whose endpoints share certificate and key but not the rules (replication: CA only, API: CA + allowed CN): a client the API refuses visits the replication endpoint first and then the API with the same TLS session cache. The binary is built with the repository's own toolchain. Non-trivial: all; distinct = distinct (case, outcome)")
+	r.Rule("tokens, concurrent: one instance of the commands' authorization function called by 2-3 clients at once (right token, another token, no token; 6 programs), every interleaving at statement granularity up to 3 preemptions: each call decided on its own metadata; tokens: for each token configuration {maintenance only, tables only, both, none} the real `regatta leader` and `regatta follower` binaries (built from the working tree) are started on unix sockets; every method of Tables (Create, Delete, List) and Maintenance (Backup stream, Restore stream, Reset) plus KV.Range and Cluster.Status as controls is called on both nodes with 14 authorization variants (absent, empty, right token under 3 scheme spellings, prefix, suffix, case-changed, trailing/leading space, Basic scheme, scheme only, token only, the other service's token): a configured service answers Unauthenticated to everything but the exact token and nothing changes; the right token is never Unauthenticated; unconfigured and other services are unaffected. TLS: real security.TLSInfo.ServerConfig() handshakes over in-memory pipes for 15 client certificates (no certificate, right/wrong CA, self-signed, CN variants, SAN variants, IP SAN, and one issued by a CA that is only in the host's default trust store - SSL_CERT_FILE points this process and the started binaries at a store holding exactly that CA) x {TrustedCAFile} x {ClientCertAuth} x {no restriction, AllowedCN, AllowedHostname, allowed IP, both (must be refused at configuration time)}; reference for hostname validity is x509's VerifyHostname; every ordered pair of those configurations (same certificate and key) x every client: a session obtained from the first must not carry a client past the second one's rules; the same 15 client certificates against the real `regatta leader` process on BOTH its TLS endpoints (client API by flags, replication by flags + config file) for {trusted CA + allowed CN, trusted CA + allowed hostname} x {client-cert-auth default, set}, one real gRPC call each; plus one leader whose endpoints share certificate and key but not the rules (replication: CA only, API: CA + allowed CN): a client the API refuses visits the replication endpoint first and then the API with the same TLS session cache. The binary is built with the repository's own toolchain. Non-trivial: all; distinct = distinct (case, outcome)")
 	bin := filepath.Join(evid.VerifDir, ".bin", "regatta-c17")
 	args := []string{"build"}
 	if ov := os.Getenv("VERIF_BUILD_OVERLAY"); ov != "" {
@@ -986,6 +1012,14 @@ func Run(r *evid.Run) {
 		os.Exit(2)
 	}
 	defer os.Remove(bin)
+	defer setupHostTrust()()
+	if sp, err := x509.SystemCertPool(); err != nil || hostCA == nil || !sp.Equal(func() *x509.CertPool { p := x509.NewCertPool(); p.AddCert(hostCA.cert); return p }()) {
+		// the default trust store could not be replaced: the foreign-but-publicly-trusted client is not probed
+		hostCA = nil
+		r.Extra("host_trust_store_replaced", false)
+	} else {
+		r.Extra("host_trust_store_replaced", true)
+	}
 	runAuthConcurrent(r)
 	runTokens(r, bin)
 	runTLS(r)
